@@ -40,3 +40,23 @@ package hydrex
 //@   loop 1 iteration[earlier_writes_are_kept] forall j in 0..old(len(itemsForSave)): itemsForSave[j] == old(itemsForSave[j])
 //@   before Hydraidego.CatalogSaveMany [writes_to_the_domain_core] arg2 == lastret("hydrex.createCoreDataName") && sliceid(arg3) == sliceid(itemsForSave) && len(arg3) == len(itemsForSave)
 //@   before Hydraidego.CatalogDeleteMany [deletes_from_the_domain_core] arg2 == lastret("hydrex.createCoreDataName") && sliceid(arg3) == sliceid(itemsForDelete) && len(arg3) == len(itemsForDelete)
+
+// Destroy: for every stored key of the domain (the callback runs once per stored record) exactly one index
+// request is queued, naming the key's index swamp and exactly this domain; the domain's core swamp is
+// destroyed; the queued requests are the ones sent.
+//@ trusted func (github.com/hydraide/hydraide/sdk/go/hydraidego/v3.Hydraidego).Destroy(h, ctx, n) (err)
+//@ func (*hydrex).Destroy$1(model) (err)
+//@   property C27
+//@   modifies *
+//@   ensures[one_more_request] holdsptr(model, "CoreData") ==> err == nil && len(deref(deleteManyFromManyReq_ptr)) == len(deleteManyFromManyReq) + 1
+//@   ensures[request_names_exactly_this_domain] holdsptr(model, "CoreData") ==> len(deref(deleteManyFromManyReq_ptr)[len(deleteManyFromManyReq)].Keys) == 1 && deref(deleteManyFromManyReq_ptr)[len(deleteManyFromManyReq)].Keys[0] == domain
+//@   ensures[request_goes_to_the_index_of_the_record_key] holdsptr(model, "CoreData") ==> calledwith("hydrex.createIndexName", 2, asptr(model, "CoreData").Key) && calledwith("hydrex.createIndexName", 1, indexName) && deref(deleteManyFromManyReq_ptr)[len(deleteManyFromManyReq)].SwampName == lastret("hydrex.createIndexName")
+//@   ensures[earlier_requests_are_kept] forall j in 0..len(deleteManyFromManyReq): deref(deleteManyFromManyReq_ptr)[j] == deleteManyFromManyReq[j]
+//@ func (*hydrex).Destroy(h, ctx, indexName, domain)
+//@   property C27
+//@   requires[store] h.hydraidegoInterface != nil
+//@   modifies *
+//@   before Hydraidego.Destroy [destroys_the_domain_core] arg2 == lastret("hydrex.createCoreDataName")
+//@   before Hydraidego.Destroy [core_name_is_for_this_index_and_domain] calledwith("hydrex.createCoreDataName", 1, indexName) && calledwith("hydrex.createCoreDataName", 2, domain)
+//@   before Hydraidego.CatalogDeleteManyFromMany [sends_the_queued_index_requests] sliceid(arg2) == sliceid(deleteManyFromManyReq) && len(arg2) == len(deleteManyFromManyReq)
+//@   ensures[core_destroyed_once] calls("Hydraidego.Destroy") == old(calls("Hydraidego.Destroy")) + 1
